@@ -119,10 +119,34 @@ func (g *gen) stGet(st State, comp string) string {
 	if !ok {
 		panic("unknown heap component " + comp)
 	}
-	n := comp + "@0"
-	g.ctx.declareOnce("comp0:"+comp, fmt.Sprintf("(declare-const %s %s)", n, s))
+	// a component not touched yet has its value as of the last `modifies *` havoc (epoch), or entry
+	ep := "0"
+	if comp != epochKey {
+		if e, ok := st[epochKey]; ok {
+			ep = strings.ReplaceAll(e, "!", "_")
+		}
+	}
+	n := comp + "@" + ep
+	g.ctx.declareOnce("comp0:"+n, fmt.Sprintf("(declare-const %s %s)", n, s))
 	st[comp] = n
 	return n
+}
+
+// epochKey is a pseudo-component that changes whenever everything is havoc'd (`modifies *`).
+const epochKey = "zz_epoch"
+
+// havocAll forgets every heap component and ghost variable (callee with `modifies *`).
+func (g *gen) havocAll(st State) {
+	for name := range g.cs.GhostVars {
+		g.ghostComp(name)
+	}
+	for _, c := range g.ctx.sortedComps() {
+		if c == "alloctop" || c == epochKey {
+			continue
+		}
+		g.havocComp(st, c)
+	}
+	g.havocComp(st, epochKey)
 }
 
 func (g *gen) stSet(st State, comp, term string) {
